@@ -311,10 +311,130 @@ Proof.
 Qed.
 
 (* ---- the covered operations ----------------------------------------------------------------------------------- *)
+(* ---- preservation: Fisher-Yates swaps ------------------------------------------------------------------ *)
+Definition transp (i j k : nat) : nat := if Nat.eqb k i then j else if Nat.eqb k j then i else k.
+
+Lemma transp_invol i j k : transp i j (transp i j k) = k.
+Proof.
+  unfold transp. destruct (Nat.eqb_spec k i) as [->|Hi].
+  - destruct (Nat.eqb_spec j i) as [->|Hji]; [reflexivity|]. rewrite Nat.eqb_refl. reflexivity.
+  - destruct (Nat.eqb_spec k j) as [->|Hj].
+    + rewrite Nat.eqb_refl. reflexivity.
+    + destruct (Nat.eqb_spec k i); [contradiction|]. destruct (Nat.eqb_spec k j); [contradiction|]. reflexivity.
+Qed.
+
+Lemma transp_perm i j n : i < n -> j < n -> Permutation (map (transp i j) (seq 0 n)) (seq 0 n).
+Proof.
+  intros Hi Hj. apply NoDup_Permutation.
+  - apply FinFun.Injective_map_NoDup; [|apply seq_NoDup].
+    intros a b H. rewrite <- (transp_invol i j a), <- (transp_invol i j b), H. reflexivity.
+  - apply seq_NoDup.
+  - intros x. rewrite in_map_iff. split.
+    + intros [k [<- Hk]]. apply in_seq in Hk. apply in_seq. unfold transp.
+      destruct (Nat.eqb k i); [lia|]. destruct (Nat.eqb k j); lia.
+    + intros Hx. exists (transp i j x). split; [apply transp_invol|].
+      apply in_seq in Hx. apply in_seq. unfold transp. destruct (Nat.eqb x i); [lia|]. destruct (Nat.eqb x j); lia.
+Qed.
+
+Lemma combine_seq_nth {A} (l : list A) (d : A) a :
+  combine (seq a (length l)) l = map (fun k => (k, nth (k - a) l d)) (seq a (length l)).
+Proof.
+  revert a; induction l as [|x t IH]; intros a; [reflexivity|]. cbn [length seq combine map].
+  rewrite Nat.sub_diag. cbn [nth]. f_equal. rewrite IH. apply map_ext_in. intros k Hk. apply in_seq in Hk.
+  replace (k - a) with (S (k - S a)) by lia. reflexivity.
+Qed.
+
+Lemma list_as_nth {A} (l : list A) (d : A) : l = map (fun k => nth k l d) (seq 0 (length l)).
+Proof.
+  induction l as [|x t IH]; [reflexivity|]. cbn [length seq map nth]. f_equal.
+  rewrite <- seq_shift, map_map. exact IH.
+Qed.
+
+Lemma swap_nth_perm i j l : Permutation (swap_nth i j l) l.
+Proof.
+  unfold swap_nth. destruct (nth_error l i) as [a|] eqn:Ea; [|apply Permutation_refl].
+  destruct (nth_error l j) as [b|] eqn:Eb; [|apply Permutation_refl].
+  assert (Hi : i < length l) by (apply nth_error_Some; congruence).
+  assert (Hj : j < length l) by (apply nth_error_Some; congruence).
+  set (d := a).
+  rewrite (combine_seq_nth l d 0), map_map.
+  rewrite (map_ext_in _ (fun k => nth (transp i j k) l d)).
+  - apply perm_trans with (map (fun k => nth k l d) (seq 0 (length l)));
+      [| rewrite <- list_as_nth; apply Permutation_refl].
+    rewrite <- (map_map (transp i j) (fun k => nth k l d)).
+    apply Permutation_map. apply transp_perm; assumption.
+  - intros k Hk. cbn [fst snd]. rewrite Nat.sub_0_r. unfold transp.
+    destruct (Nat.eqb k i); [symmetry; apply nth_error_nth; exact Eb|].
+    destruct (Nat.eqb k j); [symmetry; apply nth_error_nth; exact Ea | reflexivity].
+Qed.
+
+Lemma shuffle_objs_perm draws : forall n l, Permutation (shuffle_objs draws n l) l.
+Proof.
+  induction draws as [|r t IH]; intros n l; [destruct n; apply Permutation_refl|].
+  destruct n as [|n']; [apply Permutation_refl|]. cbn [shuffle_objs].
+  eapply perm_trans; [apply IH | apply swap_nth_perm].
+Qed.
+
+(* ---- preservation: new names for the same rows (TrimNames, TrimNamesAuto) -------------------------------- *)
+Lemma set_names_in objs : forall nn o', In o' (set_names objs nn) ->
+  exists o, In o objs /\ oid o' = oid o /\ oseq o' = oseq o.
+Proof.
+  unfold set_names. induction objs as [|o t IH]; intros nn o' H; [destruct nn; contradiction|].
+  destruct nn as [|n nn']; [contradiction|]. cbn [combine map] in H. destruct H as [<-|H].
+  - exists o. split; [left; reflexivity | split; reflexivity].
+  - destruct (IH nn' o' H) as [x [Hx E]]. exists x. split; [right; exact Hx | exact E].
+Qed.
+
+Lemma set_names_ids objs : forall nn, NoDup (map oid objs) -> NoDup (map oid (set_names objs nn)).
+Proof.
+  induction objs as [|o t IH]; intros nn H; [destruct nn; constructor|].
+  destruct nn as [|n nn']; [constructor|]. unfold set_names. cbn [combine map]. inversion H as [|? ? Hn Ht]; subst.
+  constructor; [|apply IH; exact Ht].
+  intros Hin. apply Hn. apply in_map_iff in Hin as [o' [E Ho']].
+  destruct (set_names_in t nn' o' Ho') as [x [Hx [Eid _]]]. apply in_map_iff. exists x. split; [|exact Hx].
+  rewrite <- Eid. exact E.
+Qed.
+
+Lemma set_names_inv st nn : Inv st -> Inv (set_objs st (set_names (c_objs st) nn) (reindex (set_names (c_objs st) nn))).
+Proof.
+  intros [_ [[Hnd Hlt] Hrect]]. unfold set_objs. split; [apply reindex_index_ok|]. split.
+  - split; cbn [c_objs c_next]; [apply set_names_ids; exact Hnd|].
+    intros o' Ho'. destruct (set_names_in _ _ _ Ho') as [o [Ho [E _]]]. rewrite E. apply Hlt. exact Ho.
+  - intros Hk o' Ho'. cbn [c_objs c_kind c_len] in *. destruct (set_names_in _ _ _ Ho') as [o [Ho [_ E]]].
+    rewrite E. apply (Hrect Hk o Ho).
+Qed.
+
+(* ---- preservation: SetSequenceChar ------------------------------------------------------------------------ *)
+Lemma set_nth_b_length j c s : length (set_nth_b j c s) = length s.
+Proof. revert j; induction s as [|b t IH]; intros j; [destruct j; reflexivity|]. destruct j; cbn; [reflexivity | rewrite IH; reflexivity]. Qed.
+
+Lemma set_char_inv st id j c :
+  Inv st ->
+  Inv (set_objs st (map (fun o' => if Nat.eqb (oid o') id then (oid o', (oname o', set_nth_b j c (oseq o'))) else o')
+                        (c_objs st)) (c_index st)).
+Proof.
+  intros [[Hs Hn] [[Hnd Hlt] Hrect]]. unfold set_objs.
+  set (f := fun o' : obj => if Nat.eqb (oid o') id then (oid o', (oname o', set_nth_b j c (oseq o'))) else o').
+  assert (Fid : forall o, oid (f o) = oid o) by (intros o; unfold f; destruct (Nat.eqb (oid o) id); reflexivity).
+  assert (Fname : forall o, oname (f o) = oname o) by (intros o; unfold f; destruct (Nat.eqb (oid o) id); reflexivity).
+  assert (Flen : forall o, length (oseq (f o)) = length (oseq o)).
+  { intros o; unfold f; destruct (Nat.eqb (oid o) id); [|reflexivity]. unfold oseq at 1. cbn. apply set_nth_b_length. }
+  split; [|split].
+  - split; cbn [c_objs c_index].
+    + intros n k H. destruct (Hs n k H) as [o [Hin [E1 E2]]]. exists (f o). split; [apply in_map; exact Hin|].
+      rewrite Fid, Fname. split; assumption.
+    + intros n H o' Ho'. apply in_map_iff in Ho' as [o [<- Ho]]. rewrite Fname. apply (Hn n H o Ho).
+  - split; cbn [c_objs c_next].
+    + rewrite map_map. rewrite (map_ext _ oid) by exact Fid. exact Hnd.
+    + intros o' Ho'. apply in_map_iff in Ho' as [o [<- Ho]]. rewrite Fid. apply Hlt. exact Ho.
+  - intros Hk o' Ho'. cbn [c_objs c_kind c_len] in *. apply in_map_iff in Ho' as [o [<- Ho]].
+    rewrite Flen. apply (Hrect Hk o Ho).
+Qed.
+
 Definition covered (op : cop) : bool :=
   match op with
   | OpAdd _ _ | OpPolicy _ | OpAppend _ | OpIdent _ _ | OpRename _ | OpRenameLit _ _ | OpCleanNames
-  | OpSort | OpClear => true
+  | OpSort | OpClear | OpShuffle _ | OpTrimAuto _ | OpTrim _ _ | OpSetChar _ _ _ | OpClone => true
   | _ => false
   end.
 
@@ -340,9 +460,24 @@ Proof.
   - simpl. apply rename_with_inv; exact Hinv.
   - simpl. apply rename_with_inv; exact Hinv.
   - simpl. apply rename_with_inv; exact Hinv.
+  - (* TrimNamesAuto *) simpl. apply set_names_inv; exact Hinv.
+  - (* TrimNames *)
+    destruct (if (size - 2 <? 0)%Z then (0 <? Z.of_nat (length (c_objs st)))%Z
+              else (10 ^ (size - 2) <? Z.of_nat (length (c_objs st)))%Z); [exact Hinv|].
+    destruct (trim_names (c_objs st) m (map snd m) (Z.to_nat (size - 2))) as [nn|]; [|exact Hinv].
+    simpl. apply set_names_inv; exact Hinv.
   - simpl. apply reorder_inv; [exact Hinv | apply sort_objs_perm].
+  - (* ShuffleSequences *) simpl. apply reorder_inv; [exact Hinv | apply shuffle_objs_perm].
   - simpl. unfold clear, Inv, index_ok, ids_ok, rect_ok. simpl.
     repeat split; try discriminate; try constructor; intros; contradiction.
+  - (* Clone: the rows are added to a fresh container of the same kind and policy *)
+    apply add_all_inv; [| intros H; exact H | intros H; exact H].
+    unfold Inv, index_ok, ids_ok, rect_ok. simpl.
+    repeat split; try discriminate; try constructor; intros; contradiction.
+  - (* SetSequenceChar *)
+    destruct (if (i <? 0)%Z then None else nth_error (c_objs st) (Z.to_nat i)) as [o|]; [|exact Hinv].
+    destruct ((j <? 0)%Z || (Z.of_nat (length (oseq o)) <=? j)%Z); [exact Hinv|].
+    simpl. apply set_char_inv; exact Hinv.
 Qed.
 
 (* every state reachable by covered operations satisfies the invariant *)
